@@ -40,6 +40,8 @@ class PathCtx:
         self.ghost = {}         # free-form per-path ghost state (warned, fs, ...)
         self.trace = []
         self.covered = set()
+        self._solver = None
+        self._solver_n = 0
 
     # -- naming
     def fresh_name(self, base):
@@ -68,10 +70,22 @@ class PathCtx:
         self.pc.append(c)
 
     def feasible(self, extra=None):
-        a = list(self.pc)
-        if extra is not None:
-            a.append(extra)
-        return quick_check(a, self.explorer.feas_timeout_ms) != "unsat"
+        """is pc (and extra) satisfiable?  `unknown` counts as feasible.  One incremental solver per path."""
+        if self._solver is None or self._solver_n > len(self.pc):
+            self._solver = z3.Solver()
+            self._solver.set("timeout", self.explorer.feas_timeout_ms)
+            self._solver_n = 0
+        for f in self.pc[self._solver_n:]:
+            self._solver.add(f)
+        self._solver_n = len(self.pc)
+        if extra is None:
+            return self._solver.check() != z3.unsat
+        self._solver.push()
+        try:
+            self._solver.add(extra)
+            return self._solver.check() != z3.unsat
+        finally:
+            self._solver.pop()
 
     # -- branching
     def branch(self, cond):
@@ -87,8 +101,9 @@ class PathCtx:
         if k < len(self.prefix):
             d = self.prefix[k]
         else:
-            t = self.feasible(c)
             f = self.feasible(z3.Not(c))
+            # the path condition itself is feasible, so if the negation is impossible the condition holds
+            t = True if not f else self.feasible(c)
             if t and f:
                 d = True
                 self.new_prefixes.append(self.decisions + [False])
